@@ -340,7 +340,8 @@ def _opaque_setups(pairs: List[Dict[str, Any]], side: str, dtype: torch.dtype):
     T = len(pairs[0][side]["spot"])
     spot = torch.tensor([p[side]["spot"] for p in pairs], dtype=dtype) * 0.5
     var = torch.tensor([p[side]["var"] for p in pairs], dtype=dtype) * 0.04
-    for uname in ("brownian", "heston", "localvol"):
+    from pfhedge.instruments import VasicekRate
+    for uname in ("brownian", "heston", "localvol", "rate"):
         for dcls in (EuropeanOption, LookbackOption, AmericanBinaryOption, EuropeanBinaryOption):
             if uname == "brownian":
                 ul = BrownianStock(sigma=0.2, cost=1e-3, dt=DT, dtype=dtype)
@@ -349,6 +350,9 @@ def _opaque_setups(pairs: List[Dict[str, Any]], side: str, dtype: torch.dtype):
                 ul = HestonStock(cost=1e-3, dt=DT, dtype=dtype)
                 ul.register_buffer("spot", spot.clone())
                 ul.register_buffer("variance", var.clone())
+            elif uname == "rate":                      # an underlier that defines no volatility at all
+                ul = VasicekRate(cost=1e-3, dt=DT, dtype=dtype)
+                ul.register_buffer("spot", spot.clone())
             else:
                 ul = LocalVolatilityStock(lambda t, s: s, cost=1e-3, dt=DT, dtype=dtype)
                 ul.register_buffer("spot", spot.clone())
@@ -398,8 +402,8 @@ def opaque_pairs(ctx: Ctx) -> None:
                     # two hedgers built on the SAME feature objects (a trainable extractor that reads prev_hedge): the one
                     # under test is evaluated right after the other one on the same derivative
                     from pfhedge.features import ModuleOutput
-                    ext = torch.nn.Sequential(torch.nn.Linear(2, 4), torch.nn.Tanh(), torch.nn.Linear(4, 1)).to(dtype)
-                    inputs = [ModuleOutput(ext, ["log_moneyness", "prev_hedge"]), "time_to_maturity"]
+                    ext = torch.nn.Sequential(torch.nn.Linear(4, 4), torch.nn.Tanh(), torch.nn.Linear(4, 1)).to(dtype)
+                    inputs = [ModuleOutput(ext, ["log_moneyness", "max_moneyness", "max_log_moneyness", "prev_hedge"]), "time_to_maturity"]
                     other = Hedger(torch.nn.Sequential(torch.nn.Linear(2, 1), torch.nn.Tanh()).to(dtype), inputs)
                     model = torch.nn.Sequential(torch.nn.Linear(2, 8), torch.nn.Tanh(), torch.nn.Linear(8, 1)).to(dtype)
                 else:
@@ -414,6 +418,9 @@ def opaque_pairs(ctx: Ctx) -> None:
                             other.compute_hedge(dB)
                         b = hedger.compute_hedge(dB)
                 except Exception as e:
+                    if label.endswith("/rate") and isinstance(e, AttributeError):
+                        ctx.skip("underlier without volatility: the volatility input is not available, no hedge is produced", len(ps))
+                        continue
                     ctx.violation(f"opaque:{mname}:{label}:raises", f"{mname} hedger raised {type(e).__name__}", {"error": repr(e)[:300]})
                     continue
                 Tn = a.size(-1)
